@@ -58,6 +58,16 @@ def expected(case):
     """-> (wall naive datetime, utcoffset timedelta of the target zone at that instant, source offset)"""
     d = gen.to_dt(case["local"])
     A, B, own = case["A"], case["B"], case["own"]
+    if own is not None and case["kind"] == "relative":
+        # a relative phrase that names a zone: the reference time (RELATIVE_BASE, a wall clock in TIMEZONE — or in the
+        # string's own zone when TIMEZONE is 'local') is the instant; it is expressed in the string's zone, then TO_TIMEZONE
+        src = dt.timezone(dt.timedelta(seconds=own[1]))
+        if A:
+            inst = vtz.localize(vtz.oracle_tz(A), d)
+        else:
+            inst = d.replace(tzinfo=src)
+        res = inst.astimezone(vtz.oracle_tz(B)) if B else inst.astimezone(src)
+        return res.replace(tzinfo=None), res.utcoffset(), inst.utcoffset()
     if own is not None:
         src = dt.timezone(dt.timedelta(seconds=own[1]))
         inst = d.replace(tzinfo=src)
@@ -98,7 +108,7 @@ def build(case):
         n = int((inst - dt.datetime(1970, 1, 1, tzinfo=dt.timezone.utc)).total_seconds())
         s = str(n) + ("000" if case.get("ms") else "")
     else:
-        s = "now"
+        s = "now" + ((" " + case["own"][0]) if case["own"] else "")
         settings["RELATIVE_BASE"] = d
     return s, formats, settings
 
@@ -167,7 +177,7 @@ def cases(draw, env_tz=None):
     kind = draw(st.sampled_from(KINDS))
     aware = draw(st.sampled_from([None, True, False]))
     own = None
-    if kind == "absolute" and draw(st.integers(0, 2)) == 0:
+    if kind in ("absolute", "relative") and draw(st.integers(0, 2)) == 0 and not (kind == "relative" and env_tz):
         own = draw(st.sampled_from([["+05:30", 19800], ["-0800", -28800], ["UTC+3", 10800], ["PST", -28800], ["AEST", 36000],
                                     ["UTC", 0], ["GMT-2", -7200], ["UTC+14:00", 50400], ["+09:30", 34200]]))
     d = draw(gen.datetimes(1950, 2037, us=False))
